@@ -95,6 +95,11 @@ def anchored_names() -> frozenset:
                     for x in v:
                         if "::" in x:
                             names.add(x.split("::")[1].split(".")[-1].split("@")[0])
+        # module constants that rules refer to by name (they must stay names in the views)
+        import re as _re
+        for fn_ in os.listdir(os.path.join(HERE, "sa", "props")):
+            if fn_.endswith(".py"):
+                names |= set(_re.findall(r"\b_[A-Z][A-Z0-9_]{2,}\b", open(os.path.join(HERE, "sa", "props", fn_), encoding="utf-8").read()))
         _ANCHORED = frozenset(names)
     return _ANCHORED
 
